@@ -637,6 +637,63 @@ def float_pass(chk, n_geo):
     return n, problems, creation, stats
 
 
+# ------------------------------------------------------------------------------- stock averages of the canyon
+def canyon_albedo_consistency(chk, violation):
+    """What the reflection model of the canyon is given must be what the surfaces absorb with: after a real
+    generate() with every optional override (set / unset / 0 / 1) and several stocks, the stock averages handed
+    to UCMDef (alb_wall, r_glaze, SHGC -> facAbsor) equal the area-weighted values of the buildings that are
+    simulated, and the road albedo of the canyon is the road element's."""
+    import s2_util as S
+    rng = chk.rng
+    quick = chk.tier == 'quick'
+    stocks = [[('largeoffice', 'pst80', 0.4), ('midriseapartment', 'pst80', 0.6)],
+              [('warehouse', 'pre80', 1.0)],
+              [('hospital', 'new', 0.2), ('smalloffice', 'pre80', 0.3), ('stripmall', 'pst80', 0.5)]]
+    vals = {'albwall': [None, 0.0, 0.02, 0.5, 0.91, 1.0], 'glzr': [None, 0.0, 0.35, 0.9], 'shgc': [None, 0.1, 0.8, 1.0],
+            'albroof': [None, 0.05, 0.7], 'vegroof': [None, 0.0, 0.6], 'flr_h': [None, 2.8, 6.5]}
+    n = bad = 0
+    br = {}
+    for i in range(10 if quick else 60):
+        bld = stocks[i % len(stocks)]
+        ov = {k: rng.choice(v) for k, v in vals.items()}
+        if i < 6:
+            ov['albwall'] = vals['albwall'][i]
+        case = {'level': 'generate', 'stock': bld, 'overrides': ov, 'zone': '5A'}
+        m = S.live_model(bld, zone='5A', epw=TORONTO, month=6, outdir=chk.work())
+        for k, v in ov.items():
+            setattr(m, k, v)
+        with core.quiet():
+            m.generate()
+        n += 1
+        br['albwall=%s' % ('unset' if ov['albwall'] is None else 'set')] = br.get(
+            'albwall=%s' % ('unset' if ov['albwall'] is None else 'set'), 0) + 1
+        fr = [b.frac for b in m.BEM]
+        aw = sum(f * b.wall.albedo for f, b in zip(fr, m.BEM))
+        rg = sum(f * b.building.glazing_ratio for f, b in zip(fr, m.BEM))
+        sh = sum(f * b.building.shgc for f, b in zip(fr, m.BEM))
+        msgs = []
+        if abs(m.UCM.alb_wall - aw) > 1e-12:
+            msgs.append('canyon reflects with wall albedo %r, the walls absorb with %r (area-weighted)' % (
+                m.UCM.alb_wall, aw))
+        fa = (1 - rg) * (1 - aw) + rg * (1 - 0.75 * sh)
+        if abs(m.UCM.facAbsor - fa) > 1e-12:
+            msgs.append('facade absorptivity %r, buildings give %r' % (m.UCM.facAbsor, fa))
+        if ov['albwall'] is not None and any(b.wall.albedo != ov['albwall'] for b in m.BEM):
+            msgs.append('albwall override %r not on every wall' % ov['albwall'])
+        if m.UCM.road is not None and hasattr(m.UCM, 'road') and m.UCM.road.albedo != m.albroad:
+            msgs.append('canyon road albedo %r != albroad %r' % (m.UCM.road.albedo, m.albroad))
+        if msgs:
+            bad += 1
+            if bad <= 2:
+                violation('stock averages of the canyon disagree with the simulated buildings', case,
+                          ' | '.join(msgs), 'UCM.alb_wall = sum frac_j wall_j.albedo; facAbsor from the same buildings')
+    chk.direct('canyon-stock-averages(real generate, overrides)', n, n,
+               'real generate() over 3 stocks x optional overrides (albwall incl. 0, 1 and unset; glzr, shgc, albroof, '
+               'vegroof, flr_h): the wall albedo / glazing ratio / SHGC the canyon reflection model is constructed '
+               'with equal the area-weighted values of the buildings that are simulated (1e-12); an albwall override '
+               'is on every wall', mismatches=bad, branches=br)
+
+
 # ------------------------------------------------------------------------------- live simulations
 TORONTO = 'tests/epw/CAN_ON_Toronto.716240_CWEC.epw'
 SINGAPORE = 'resources/SGP_Singapore.486980_IWEC.epw'
@@ -947,6 +1004,7 @@ def run(chk):
 
     # ---------------------------------------------------------------- live simulations
     live_stock_runs(chk, violation)
+    canyon_albedo_consistency(chk, violation)
 
     # ---------------------------------------------------------------- float level
     nf, fproblems, fcreation, fstats = float_pass(chk, 16 if quick else 60)
